@@ -10,7 +10,7 @@ CONSTANTS
   StIn = {8}
   MaxCalls = 3
   FreshOnly = TRUE
-  Quirks <- MC_QuirksOff
+  Quirks <- MC_QuirkF4
 INVARIANTS TypeOK Total NeverUnspecified LabelsTruthful OutcomeAllowed
 PROPERTY DimsPreserved
 CHECK_DEADLOCK FALSE
